@@ -13,6 +13,10 @@ impl HashToPoint for Bls12381G2Impl {
     type Output = G2Projective;
 
     fn hash_to_point<B: AsRef<[u8]>, C: AsRef<[u8]>>(m: B, dst: C) -> Self::Output {
+        #[cfg(blsful_verif)]
+        if let Some(p) = crate::helpers::verif_hooks::known_dlog_hash(m.as_ref(), dst.as_ref()) {
+            return p;
+        }
         Self::Output::hash::<ExpandMsgXmd<sha2::Sha256>>(m.as_ref(), dst.as_ref())
     }
 }
@@ -146,6 +150,10 @@ impl HashToPoint for Bls12381G2Hasher {
     type Output = G1Projective;
 
     fn hash_to_point<B: AsRef<[u8]>, C: AsRef<[u8]>>(m: B, dst: C) -> Self::Output {
+        #[cfg(blsful_verif)]
+        if let Some(p) = crate::helpers::verif_hooks::known_dlog_hash(m.as_ref(), dst.as_ref()) {
+            return p;
+        }
         Self::Output::hash::<ExpandMsgXmd<sha2::Sha256>>(m.as_ref(), dst.as_ref())
     }
 }
